@@ -834,4 +834,45 @@ theorem full_empty (cur : Nat → Aabb3 K) : Full (Q.empty : Q K) cur := by
   · intro n nd hn; simp [Q.empty] at hn
   · intro p pr hp; simp [Q.empty] at hp
 
+/-! ### the executable box / work-list checks are sound -/
+
+theorem contains_iff_mem (l : List Nat) (n : Nat) : l.contains n = true ↔ n ∈ l := by simp
+
+theorem checkFresh_sound (q : Q K) (cur : Nat → Aabb3 K) (h : checkFresh q cur = true) : BoxInv q cur := by
+  intro n nd hn hlive
+  have hlt := (Array.getElem?_eq_some_iff.mp hn).1
+  have := (all_range_iff _ _).1 h n hlt
+  simp only [hn, Bool.or_eq_true, Bool.not_eq_true'] at this
+  rcases this with hl | hg
+  · exact absurd ((isLive_iff q n).2 hlive) (by simp [hl])
+  · exact hg
+
+theorem checkTracked_sound (q : Q K) (cur : Nat → Aabb3 K) (h : checkTracked q cur = true) : Tracked q cur := by
+  intro n nd hn hlive
+  have hlt := (Array.getElem?_eq_some_iff.mp hn).1
+  have := (all_range_iff _ _).1 h n hlt
+  simp only [hn, Bool.or_eq_true, Bool.not_eq_true', Bool.and_eq_true] at this
+  rcases this with (hl | hg) | ⟨hd, hm⟩
+  · exact absurd ((isLive_iff q n).2 hlive) (by simp [hl])
+  · exact Or.inl hg
+  · exact Or.inr ⟨hd, (contains_iff_mem _ _).1 hm⟩
+
+theorem checkDirty_sound (q : Q K) (h : checkDirty q = true) : DirtyQueued q := by
+  intro n nd hn hd
+  have hlt := (Array.getElem?_eq_some_iff.mp hn).1
+  have := (all_range_iff _ _).1 h n hlt
+  simp only [hn, Bool.or_eq_true, Bool.not_eq_true'] at this
+  rcases this with hl | hm
+  · rw [hd] at hl; cases hl
+  · exact (contains_iff_mem _ _).1 hm
+
+theorem checkData_sound (q : Q K) (h : checkData q = true) : DataOk q := by
+  intro p pr hp hne
+  have hlt := (Array.getElem?_eq_some_iff.mp hp).1
+  have := (all_range_iff _ _).1 h p hlt
+  simp only [hp, Bool.or_eq_true, beq_iff_eq] at this
+  rcases this with e | e
+  · exact absurd e hne
+  · exact e
+
 end C08
